@@ -233,6 +233,17 @@ def tokens_for(rules, rng=None, extra=()):
                 mids |= {"12", "1.5"}
             elif c == "int":
                 mids |= set(SAMPLES["int"]) | {"1" * max(1, s["n"]), "1" * (s["n"] + 1), "-3", "-0", "x1", "1x", "1.5"}
+                n = s["n"]
+                if n:
+                    # exactly n digits with leading zeros (admitted: value 7 / 0), without, and n-1 / n+1 digits
+                    z = {"0" * (n - 1) + "7", "0" * n, "7" + "0" * (n - 1), "9" * n, "0" * n + "7", "0" * (n + 1)}
+                    if n > 1:
+                        z |= {"0" * (n - 2) + "7", "0" * (n - 1), "9" * (n - 1)}
+                    mids |= z
+                    if s["signed"]:
+                        mids |= {"-" + x for x in z}
+                elif s["signed"]:
+                    mids |= {"-07", "-12", "-007"}
             elif c == "float":
                 mids |= set(SAMPLES["float"]) | {"-2.5", "1.", ".5", "1.5.2", "12", "-0.0"}
             elif c == "any":
